@@ -5,6 +5,13 @@ From GQ Require Import Lib.Key Lib.SMap Lib.C04_BigEndian Lib.C04_Expr Model.C04
 Import ListNotations.
 Local Open Scope N_scope.
 
+Lemma nodup_app_l (A : Type) (l1 l2 : list A) : NoDup (l1 ++ l2) -> NoDup l1.
+Proof.
+  induction l1 as [|a l1 IH]; cbn; intros Hn; [constructor|].
+  inversion Hn as [|? ? Hnot Hrest]; subst. constructor; [|apply IH; exact Hrest].
+  intros Hin. apply Hnot. apply in_or_app. left. exact Hin.
+Qed.
+
 Definition gas_sum (blk : list (etx * N)) : N := fold_right (fun x a => snd x + a) 0 blk.
 
 (* the guards as the generator sees them mean what the model's boolean functions say *)
@@ -134,7 +141,7 @@ Section Accept.
     pose proof (pop_compare_refines blk t0 0 0 I0) as P. cbn zeta in P. rewrite A0 in P.
     destruct (pop_compare H hash heqb t0 blk 0 0) as [[[v t1] c'] g']. cbn [fst snd] in P.
     destruct P as (V & I1 & A1 & G). unfold list_accept. rewrite <- V.
-    destruct v; cbn [fst snd]; auto.
+    destruct v; cbn [fst snd]; try (split; [reflexivity|split; assumption]).
     destruct (G eq_refl) as [-> ->]. rewrite !N.add_0_l.
     rewrite (read_oldest_spec t1 I1), A1.
     assert (K : snd (cmp_spec (abs t ++ inbound) blk) = length blk).
@@ -143,10 +150,12 @@ Section Accept.
     set (rest := skipn (length blk) (abs t ++ inbound)).
     replace (match hd_error rest with Some _ => true | None => false end)
       with (match rest with [] => false | _ => true end) by (destruct rest; reflexivity).
-    match goal with |- context [count_rule_viol ?a ?b ?c] => destruct (count_rule_viol a b c) end;
-      [cbn; auto|].
-    match goal with |- context [gas_rule_viol ?a ?b ?c ?d] => destruct (gas_rule_viol a b c d) end;
-      cbn; auto.
+    generalize (match rest with [] => false | _ => true end). intros avail.
+    assert (A2 : abs t1 = rest) by (unfold rest; rewrite A1, K; reflexivity).
+    destruct (count_rule_viol num avail (N.of_nat (length blk)));
+      [cbn [fst snd]; split; [reflexivity|split; assumption]|].
+    destruct (gas_rule_viol num avail (gas_sum blk) gl);
+      cbn [fst snd]; (split; [reflexivity|split; assumption]).
   Qed.
 
   Lemma list_accept_inv q blk num gl : list_accept q blk num gl = VAccept ->
@@ -171,7 +180,7 @@ Section Accept.
   Qed.
 
   Lemma skipn_nonempty_iff (A : Type) (l : list A) n :
-    (match skipn n l with [] => false | _ => true end) = (n <? length l)%nat.
+    (match skipn n l with [] => false | _ => true end) = Nat.ltb n (length l).
   Proof.
     revert n; induction l as [|a l IH]; intros [|n]; cbn [skipn length]; try reflexivity.
     rewrite IH. reflexivity.
@@ -190,7 +199,7 @@ Section Accept.
     destruct (accept_block_refines t inbound blk num gl I W) as (V & I' & A).
     rewrite E in V, I', A. cbn [fst snd] in *. symmetry in V.
     apply list_accept_inv in V as [V _]. apply cmp_spec_accept in V as (L & K & M).
-    rewrite K in A. repeat split; auto. apply map_hash_eq_or_collision. exact M.
+    rewrite K in A. split; [exact L|split; [apply map_hash_eq_or_collision; exact M|split; assumption]].
   Qed.
 
   Lemma reject_not_next_items t inbound blk num gl : Inv t -> wf_etxs inbound ->
@@ -206,7 +215,7 @@ Section Accept.
 
   Lemma accept_iff t inbound blk num gl : Inv t -> wf_etxs inbound ->
     let Q := abs t ++ inbound in
-    let avail := (length blk <? length Q)%nat in
+    let avail := Nat.ltb (length blk) (length Q) in
     fst (accept_block H hash heqb t inbound blk num gl) = VAccept <->
     ((length blk <= length Q)%nat /\ map hash (map fst blk) = map hash (firstn (length blk) Q) /\
      count_rule_viol num avail (N.of_nat (length blk)) = false /\
@@ -248,7 +257,7 @@ Section Accept.
     intros I W ND Hv. apply (accept_iff t inbound blk num gl I W) in Hv.
     destruct Hv as (_ & M & _). rewrite M.
     set (Q := abs t ++ inbound) in *. rewrite <- (firstn_skipn (length blk) Q), map_app in ND.
-    apply NoDup_app_remove_r in ND. exact ND.
+    apply nodup_app_l in ND. exact ND.
   Qed.
 End Accept.
 
